@@ -46,6 +46,11 @@ C13_RoundTrip == T.e = "rt" =>
 C06_Scaled == T.e = "scale" =>
   \/ (T.st = "ok" /\ T.equal)
   \/ (TLCSet(2, TLCGet(2) + 1) /\ PrintT("VIOL " \o ToJson([prop |-> "C06", id |-> T.n, line |-> l, what |-> "an exact split scaled by a factor beyond 2^31 / 2^64 does not give the scaled shares"])))
+\* generic scaling lift for sends without allotments (every operation is min / max / + / -, hence positively homogeneous):
+\* all numbers of a TLC-validated small case multiplied by U give U times the postings and the same outcome class
+Scaled == (T.e = "scale" /\ "prop" \in DOMAIN T) =>
+  \/ T.equal
+  \/ (TLCSet(2, TLCGet(2) + 1) /\ PrintT("VIOL " \o ToJson([prop |-> T.prop, id |-> T.n, line |-> l, what |-> "amounts beyond 2^31 / 2^64: a case scaled by a huge factor does not give the scaled postings / the same outcome"])))
 Post == TLCGet(2) = 0
 ASSUME TLCSet(2, 0)
 =============================================================================
